@@ -480,7 +480,8 @@ def run(cx):
         rws = {fmt_word(w) for w in seq_words(rq, lambda c, o: "decode" if name_matches(c.fn, f"{RPC}::codec::Decoder::decode") else None,
                                                lambda bbi, s, o: ("ret=" + s["rv"]["variant"]) if s["lhs"] == 0 and s["rv"]["k"] == "agg" and s["rv"].get("adt") == "core::result::Result" else None,
                                                None, strict=False)}
-        ob.require(rws == {"decode !err <return>", "decode ret=Ok <return>"}, "map_request/words", f"map_request behaviours: {sorted(rws)}", rq.path)
+        rws = {w.replace("!err", "ret=Err") for w in rws}       # an error exit, propagated with `?` or written as `return Err(..)`
+        ob.require(rws == {"decode ret=Err <return>", "decode ret=Ok <return>"}, "map_request/words", f"map_request behaviours: {sorted(rws)}", rq.path)
 
     with cx.ob("C17.6", "R-SIBLING", "Status::into_response / from_response agree on status, headers and the message header key; rpc panic inventory is empty") as ob:
         ib = cx.impl_method(f"{RPC}::Status", "IntoResponse", "into_response")
